@@ -73,8 +73,10 @@ def main(ctx, replay=None):
         g = numpy.linspace(0.6, 2.4, nq * np_).reshape(nq, np_) + rng.uniform(-0.02, 0.02, (nq, np_))
         a = rng.uniform(100, 1200, (nq, np_))
         freqs = a[None] * (volumes[:, None, None] / vmax) ** (-g[None])
-        freqs[:, 0, :3] = 0.0
-        case = {"method": method, "order": order, "nv": nv, "table": "power_law"}
+        gamma_zero = bool(rng.random() < 0.5)
+        if gamma_zero:
+            freqs[:, 0, :3] = 0.0        # as in real files; otherwise arbitrary positive numbers: the output must be zero either way
+        case = {"method": method, "order": order, "nv": nv, "table": "power_law", "gamma_acoustic_zero": gamma_zero}
         ctx.count(case)
         try:
             w, gam, kap = call(method, order, volumes, freqs, v_array)
